@@ -162,7 +162,16 @@ class Detector:
     @photon.setter
     def photon(self, obj: Photon) -> None:
         """Set the photon information for the detector."""
-        self.photon._array = obj._array
+        if not isinstance(obj, Photon):
+            raise TypeError(f"Expected a 'Photon' object. Got: {obj!r}")
+
+        # Use the properties to validate (and copy) the new array
+        if obj._array is None:
+            self.photon.empty()
+        elif isinstance(obj._array, np.ndarray):
+            self.photon.array = obj._array
+        else:
+            self.photon.array_3d = obj._array
 
     @property
     def scene(self) -> Scene:
